@@ -129,8 +129,14 @@ type Node struct {
 	Restarts    int
 	LastAppHash []byte
 	Blocks      []BlockRecord // recorded if Record is true
+	Digests     []string
+	TxCodes     [][]uint32
+	AppHashes   []string
 	Record      bool
 	Opts        []func(*baseapp.BaseApp)
+
+	// InitReq is the InitChain request this node was started with.
+	InitReq *abci.RequestInitChain
 
 	// cached query context of the last committed height (read-only use)
 	qctx         sdk.Context
@@ -183,19 +189,27 @@ func (n *Node) InitChain(spec *GenesisSpec) {
 	if ih <= 0 {
 		ih = 1
 	}
-	res, err := n.App.InitChain(&abci.RequestInitChain{
+	req := &abci.RequestInitChain{
 		ChainId:         n.ChainID,
 		Time:            spec.GenesisTime,
 		ConsensusParams: cp,
 		Validators:      vals,
 		AppStateBytes:   appState,
 		InitialHeight:   ih,
-	})
+	}
+	n.InitChainRaw(req)
+}
+
+// InitChainRaw runs InitChain with a prepared request (twin nodes replay the leader's request).
+func (n *Node) InitChainRaw(req *abci.RequestInitChain) {
+	res, err := n.App.InitChain(req)
 	if err != nil {
 		panic(fmt.Errorf("InitChain: %w", err))
 	}
+	n.InitReq = req
+	ih := req.InitialHeight
 	n.Height = ih - 1
-	n.Time = spec.GenesisTime
+	n.Time = req.Time
 	for _, u := range res.Validators {
 		n.applyUpdate(u)
 	}
@@ -374,6 +388,13 @@ func (n *Node) commit(rec BlockRecord, res *BlockResult) {
 	n.LastAppHash = res.AppHash
 	if n.Record {
 		n.Blocks = append(n.Blocks, rec)
+		n.Digests = append(n.Digests, res.Digest)
+		var codes []uint32
+		for _, r := range res.Results {
+			codes = append(codes, r.Code)
+		}
+		n.TxCodes = append(n.TxCodes, codes)
+		n.AppHashes = append(n.AppHashes, hex.EncodeToString(res.AppHash))
 	}
 	// validator updates of block h take effect for the set that signs h+2
 	n.pendingUpdates = append(n.pendingUpdates, res.Updates)
